@@ -64,7 +64,11 @@ func StartSolver(kind string, timeoutMs int) (*Solver, error) {
 		return nil, err
 	}
 	s := &Solver{cmd: cmd, in: in, out: bufio.NewReaderSize(outp, 1<<16), Name: kind}
-	if _, err := s.roundtrip("(set-option :produce-models true)\n"); err != nil {
+	init := "(set-option :produce-models true)\n"
+	if kind == "cvc5" {
+		init += "(set-logic ALL)\n" // cvc5 wants a logic before the first declaration
+	}
+	if _, err := s.roundtrip(init); err != nil {
 		return nil, err
 	}
 	return s, nil
